@@ -2,71 +2,100 @@
 (***************************************************************************)
 (* Trace validation (code -> spec) for competing assignment, C07.          *)
 (* Every line of TRACE_FILE is one recorded run of the real                *)
-(* score_and_assign driver (fight_over_peaks / assignlabels / raw calls):  *)
-(*   id, G, K, E,                                                          *)
-(*   err[g][k]   dense rank of the reference error calc_drlv2(UBI_g, gv_k) *)
-(*               among the K*G errors, E if not strictly below tol^2       *)
-(*   ev[i] = [g, n, labels[k], dr[k]]  after the i-th real call: label     *)
-(*               presented, returned count (-1 when the trace is a block   *)
-(*               of a larger run: then the verdict reports the model's     *)
-(*               counts `ns` and the harness sums them over the blocks),   *)
-(*               labels (-1 unassigned, grains numbered 1..G), rank of the *)
-(*               stored error (E = initial, -2 = not a reference error)    *)
-(* Each event must be exactly the step ScoreAssign.tla's Call;Chunk*;Return*)
-(* produces from the current state (the chunks commute: peaks are          *)
-(* independent, so the composite step is deterministic); at the end the    *)
-(* invariant BestGrain / StoredError / Histogram must hold.                *)
+(* score_and_assign kernel, called directly or through one of its callers  *)
+(* (indexer.fight_over_peaks, indexer.getind, refinegrains.assignlabels,   *)
+(* nb_utils.assign_peaks_to_grains: the harness maps each route's label    *)
+(* numbering to 1..G, -1 = unassigned, 0 = any other value):               *)
+(*   id, G (labels 1..G), R (rows = UBI versions, R >= G), K, E,           *)
+(*   rowlabel[r] label under which row r is presented                      *)
+(*   err[r][k]   per-peak dense rank of the harness's own reference error  *)
+(*               |UBI_r.g_k - round|^2 (g_k recomputed for the grain's     *)
+(*               position on the assignlabels route) among the errors of   *)
+(*               peak k, E if not strictly below the row's tol^2           *)
+(*   lab0[k]     content of the labels buffer before the first call        *)
+(*               (drlv2 starts at E = "the caller's 1.0 / 2.0")            *)
+(*   ev[i]       kind "call": [row, n, obs, labels[k], dr[k]] = row        *)
+(*               presented, returned count (-1: not judged, the verdict    *)
+(*               reports the model's counts `ns` and the harness sums them *)
+(*               over the blocks of a larger run), obs = 1 if the buffers  *)
+(*               after the call were observable (0 inside a caller: the    *)
+(*               step is applied, nothing is compared), labels, rank of    *)
+(*               the stored error (E = initial, -2 = no reference error)   *)
+(*               kind "reset": the caller re-initialises drlv2 (:= E) and  *)
+(*               KEEPS the labels buffer (a second pass over stale labels) *)
+(*   hist[g]     per-grain counts reported by the route (<<>> = none)      *)
+(* Each call must be exactly the step ScoreAssign.tla's                    *)
+(* Call;(TakeP|ReleaseP|LeaveP)*;Return produces from the current state    *)
+(* (peaks are independent, so the composite step is deterministic); when   *)
+(* the calls since the last reset (or the start) present every label       *)
+(* exactly once - a fresh single pass - the final state must satisfy       *)
+(* BestGrain / Unassigned / StoredError / Histogram, whatever the labels   *)
+(* buffer held before the pass.                                            *)
 (* One verdict line per trace, naming the first failing clause.            *)
 (***************************************************************************)
 EXTENDS Integers, Sequences, FiniteSets, TLC, Json, IOUtils
 
 Trace == ndJsonDeserialize(IOEnv.TRACE_FILE)
 
-VARIABLES t, e, labels, drlv2, why, ns
-vars == <<t, e, labels, drlv2, why, ns>>
+VARIABLES t, e, labels, drlv2, why, ns, seg, seglab
+vars == <<t, e, labels, drlv2, why, ns, seg, seglab>>
 
 Rec == Trace[t]
-InitLabels(r) == [k \in 1..r.K |-> -1]
+InitLabels(r) == [k \in 1..r.K |-> r.lab0[k]]
 InitDr(r) == [k \in 1..r.K |-> r.E]
 
-Init == /\ t = 1 /\ e = 0 /\ why = "ok" /\ ns = <<>>
+Init == /\ t = 1 /\ e = 0 /\ why = "ok" /\ ns = <<>> /\ seg = <<>>
         /\ labels = IF Len(Trace) > 0 THEN InitLabels(Trace[1]) ELSE <<>>
+        /\ seglab = labels
         /\ drlv2 = IF Len(Trace) > 0 THEN InitDr(Trace[1]) ELSE <<>>
 
-\* the composite step of ScoreAssign.tla for grain g
-Take(r, g, k) == r.err[g][k] < r.E /\ r.err[g][k] < drlv2[k]
-StepLabels(r, g) == [k \in 1..r.K |-> IF Take(r, g, k) THEN g ELSE IF labels[k] = g THEN -1 ELSE labels[k]]
-StepDr(r, g) == [k \in 1..r.K |-> IF Take(r, g, k) THEN r.err[g][k] ELSE drlv2[k]]
-StepN(r, g) == Cardinality({k \in 1..r.K : Take(r, g, k)})
+\* the composite step of ScoreAssign.tla for row w presented under label g
+Take(r, w, k) == r.err[w][k] < r.E /\ r.err[w][k] < drlv2[k]
+StepLabels(r, w, g) == [k \in 1..r.K |-> IF Take(r, w, k) THEN g ELSE IF labels[k] = g THEN -1 ELSE labels[k]]
+StepDr(r, w) == [k \in 1..r.K |-> IF Take(r, w, k) THEN r.err[w][k] ELSE drlv2[k]]
+StepN(r, w) == Cardinality({k \in 1..r.K : Take(r, w, k)})
 
-Event == /\ t <= Len(Trace) /\ e < Len(Rec.ev) /\ why = "ok"
-         /\ LET r == Rec  v == r.ev[e + 1]  g == v.g
-            IN /\ labels' = StepLabels(r, g)
-               /\ drlv2' = StepDr(r, g)
-               /\ ns' = Append(ns, StepN(r, g))
-               /\ why' = IF v.n # -1 /\ v.n # StepN(r, g) THEN "returned count differs from the specification's step"
-                         ELSE IF \E k \in 1..r.K : v.labels[k] # StepLabels(r, g)[k] THEN "labels after the call differ from the specification's step"
-                         ELSE IF \E k \in 1..r.K : v.dr[k] # StepDr(r, g)[k] THEN "stored errors after the call differ from the specification's step"
-                         ELSE "ok"
-         /\ e' = e + 1 /\ t' = t
+CallEvent == /\ t <= Len(Trace) /\ e < Len(Rec.ev) /\ why = "ok" /\ Rec.ev[e + 1].kind = "call"
+             /\ LET r == Rec  v == r.ev[e + 1]  w == v.row  g == r.rowlabel[w]
+                IN /\ labels' = StepLabels(r, w, g)
+                   /\ drlv2' = StepDr(r, w)
+                   /\ ns' = Append(ns, StepN(r, w))
+                   /\ seg' = Append(seg, w)
+                   /\ why' = IF v.n # -1 /\ v.n # ns'[Len(ns')] THEN "returned count differs from the specification's step"
+                             ELSE IF v.obs = 0 THEN "ok"
+                             ELSE IF \E k \in 1..r.K : v.labels[k] # labels'[k] THEN "labels after the call differ from the specification's step"
+                             ELSE IF \E k \in 1..r.K : v.dr[k] # drlv2'[k] THEN "stored errors after the call differ from the specification's step"
+                             ELSE "ok"
+             /\ e' = e + 1 /\ UNCHANGED <<t, seglab>>
 
-\* final-state property (every grain presented once, checked by the recorder and here)
-MinErr(r, k) == LET vals == {r.err[g][k] : g \in 1..r.G} IN CHOOSE m \in vals : \A x \in vals : m <= x
+ResetEvent == /\ t <= Len(Trace) /\ e < Len(Rec.ev) /\ why = "ok" /\ Rec.ev[e + 1].kind = "reset"
+              /\ drlv2' = InitDr(Rec) /\ seg' = <<>> /\ seglab' = labels
+              /\ e' = e + 1 /\ UNCHANGED <<t, labels, why, ns>>
+
+\* final-state property of a fresh single pass (the calls since the last reset present every label exactly once)
+Min(S) == CHOOSE m \in S : \A x \in S : m <= x
+SinglePass(r) == /\ Len(seg) = r.G
+                 /\ \A g \in 1..r.G : Cardinality({i \in 1..Len(seg) : r.rowlabel[seg[i]] = g}) = 1
+RowOf(r, g) == seg[CHOOSE i \in 1..Len(seg) : r.rowlabel[seg[i]] = g]
+MinErr(r, k) == Min({r.err[seg[i]][k] : i \in 1..Len(seg)})
+Nobody(k) == IF seglab[k] = 0 THEN 0 ELSE -1
 FinalWhy(r) ==
-  IF {r.ev[i].g : i \in 1..Len(r.ev)} # 1..r.G \/ Len(r.ev) # r.G THEN "ok"    \* not a complete single pass: steps only
-  ELSE IF \E k \in 1..r.K : (MinErr(r, k) >= r.E) # (labels[k] = -1) THEN "a peak indexed by no grain is labelled / an indexable peak is unassigned"
-  ELSE IF \E k \in 1..r.K : labels[k] # -1 /\ r.err[labels[k]][k] # MinErr(r, k) THEN "a peak is not with its best-fitting grain"
-  ELSE IF \E k \in 1..r.K : labels[k] # -1 /\ drlv2[k] # MinErr(r, k) THEN "stored error is not the minimum"
-  ELSE IF \E g \in 1..r.G : r.hist[g] # Cardinality({k \in 1..r.K : labels[k] = g}) THEN "per-grain counts are not the histogram of the labels"
+  IF ~SinglePass(r) THEN "ok"                                                \* not a complete single pass: steps only
+  ELSE IF \E k \in 1..r.K : MinErr(r, k) >= r.E /\ labels[k] # Nobody(k) THEN "a peak indexed by no grain is not labelled unassigned"
+  ELSE IF \E k \in 1..r.K : MinErr(r, k) < r.E /\ labels[k] \notin 1..r.G THEN "an indexable peak is unassigned"
+  ELSE IF \E k \in 1..r.K : labels[k] \in 1..r.G /\ r.err[RowOf(r, labels[k])][k] # MinErr(r, k) THEN "a peak is not with its best-fitting grain"
+  ELSE IF \E k \in 1..r.K : labels[k] \in 1..r.G /\ drlv2[k] # MinErr(r, k) THEN "stored error is not the minimum"
+  ELSE IF Len(r.hist) = r.G /\ \E g \in 1..r.G : r.hist[g] # Cardinality({k \in 1..r.K : labels[k] = g}) THEN "per-grain counts are not the histogram of the labels"
   ELSE "ok"
 
 Finish == /\ t <= Len(Trace) /\ (e = Len(Rec.ev) \/ why # "ok")
           /\ LET w == IF why # "ok" THEN why ELSE FinalWhy(Rec)
              IN PrintT("@@" \o ToJson([id |-> Rec.id, ok |-> (w = "ok"), why |-> w, consumed |-> e, ns |-> ns]))
-          /\ t' = t + 1 /\ e' = 0 /\ why' = "ok" /\ ns' = <<>>
+          /\ t' = t + 1 /\ e' = 0 /\ why' = "ok" /\ ns' = <<>> /\ seg' = <<>>
           /\ labels' = IF t + 1 <= Len(Trace) THEN InitLabels(Trace[t + 1]) ELSE <<>>
+          /\ seglab' = labels'
           /\ drlv2' = IF t + 1 <= Len(Trace) THEN InitDr(Trace[t + 1]) ELSE <<>>
 
-Next == Event \/ Finish
+Next == CallEvent \/ ResetEvent \/ Finish
 Spec == Init /\ [][Next]_vars
 =============================================================================
